@@ -221,13 +221,16 @@ def main(argv=None):
     for v in agg.viols:
         by_key.setdefault(v["key"], v)
     reported = 0
+    confirmed = 0
     known_hit = []
     flaky = 0
     for key, v in by_key.items():
         if key in known:
             known_hit.append(key)
             continue
-        conf = confirm(modname, v["case"]) if getattr(mod, "CONFIRM", True) else [v]
+        do_confirm = getattr(mod, "CONFIRM", True) and not os.environ.get("VERIF_NOCONFIRM") and confirmed < 40
+        confirmed += 1
+        conf = confirm(modname, v["case"]) if do_confirm else [v]
         if conf is None or not any(c["key"] == key for c in conf):
             flaky += 1
             print(f"HARNESS-ERROR: violation {key} did not reproduce from a clean process: {v['what']}")
@@ -235,7 +238,7 @@ def main(argv=None):
             continue
         path = write_replay(prop, v)
         reported += 1
-        if reported <= 25:
+        if reported <= 60:
             print(f"VIOLATION property={prop} replay={path}")
             print(f"  key={key}: {v['what']}")
     if reported:
